@@ -18,6 +18,8 @@ func init() {
 			})
 			c.Floor("S.spec", 24)
 			ruleJSONValueSpec(c)
+			ruleOmitSpec(c)
+			ruleRejects(c, decodeBound(c.P), nil)
 			ruleFieldTag(c)
 			ruleNoSort(c)
 			ruleWireConsts(c)
@@ -27,6 +29,8 @@ func init() {
 			ruleStructDescriptorOrderOnly(c)
 			ruleAnyOrder(c, lightBound(c.P, "plenccodec.StructCodec.Read"))
 			ruleMapDescriptor(c)
+			ruleReg(c)
+			ruleLookupStateless(c, []string{"plenccodec.StructCodec.Read"})
 		},
 	})
 }
